@@ -84,7 +84,8 @@ def gen_world(rng):
                "atype": w_type if rng.random() < 0.8 else rng.choice(["CARD_COMPARISON", "ONEAUDIT", "POLLING"]),
                "style": s_style if rng.random() < 0.88 else (not s_style),
                "share": rng.choice([F(1, 2), F(5, 8), F(3, 4), F(2, 3), F(1, 4), F(9, 16), F(3, 5), F(3, 8), F(1, 3), F(2, 5)]),
-               "direct": rng.random() < 0.5}     # super-majority: Assertion.make_supermajority_assertion called directly
+               "direct": rng.random() < 0.5,     # super-majority: Assertion.make_supermajority_assertion called directly
+               "ctor": rng.random() < 0.3}       # assertions re-created by calling the Assertion constructor directly
         if kind == "irv":
             ja = []
             for _ in range(rng.randint(1, 2)):
@@ -278,6 +279,20 @@ def build_contests(M, NonnegMean, spec, n_cards):
             c = contests[con["id"]]
             c.assertions = M.Assertion.make_supermajority_assertion(
                 contest=c, winner="A", loser=[x for x in con["cands"] if x != "A"], test=c.test, estim=c.estim)
+    for con in spec["cons"]:
+        if con.get("ctor"):
+            # the Assertion / Assorter constructors called directly, every optional argument at a non-default value:
+            # preliminary pool means for every label, a preliminary margin, an earlier p-value history.  The setters
+            # called later on the final CVR list must replace all of it.
+            c = contests[con["id"]]
+            labels = ["p1", "p2", 7, None] + sorted({x["tally_pool"] for x in spec["cards"] if isinstance(x["tally_pool"], str)})
+            for k, (a, old) in enumerate(list(c.assertions.items())):
+                stale = {lab: [0.0625, 0.875, 0.3125][(j + k) % 3] * float(old.assorter.upper_bound) for j, lab in enumerate(labels)}
+                c.assertions[a] = M.Assertion(
+                    contest=c, assorter=M.Assorter(contest=c, assort=old.assorter.assort, upper_bound=old.assorter.upper_bound),
+                    winner=old.winner, loser=old.loser, margin=[0.3, 0.0625][k % 2], test=old.test, estim=c.estim, bet=None,
+                    test_kwargs={}, p_value=0.7, p_history=[0.9, 0.7], proved=(k % 2 == 1), sample_size=5 + k,
+                    tally_pool_means=stale)
     return contests
 
 
@@ -383,6 +398,17 @@ def preliminary_pass(M, rng, audit, contests, asns, cvrs, s_style):
                 cvr_list=first, tally_pools=(rng.sample(labs, rng.randint(0, len(labs))) or None), use_style=s_style))
 
 
+def cvrs_as_mvrs(rng, cvrs, mvrs):
+    """in a share of the worlds the SAME python object is manual record and CVR (Contest.find_sample_size passes the CVR
+    list as the MVRs): the whole list, or some positions; phantoms, pooled and unlisted-contest records included"""
+    r = rng.random()
+    if r < 0.08:
+        return list(cvrs), "all"
+    if r < 0.22:
+        return [c if rng.random() < 0.4 else m for c, m in zip(cvrs, mvrs)], "some"
+    return mvrs, None
+
+
 def differs(a, b):
     """two implementation floats differ by more than the tolerance (non-finite values differ from everything else)"""
     a, b = float(a), float(b)
@@ -456,6 +482,9 @@ def run_world(rng, spec):
         c.sample_num = s
     mvr_specs = [gen_mvr(wr, spec, cons, c) for c in cvrs]
     mvrs = [M.CVR(id=c.id, votes=copy.deepcopy(m["votes"]), phantom=m["phantom"]) for c, m in zip(cvrs, mvr_specs)]
+    mvrs, same = cvrs_as_mvrs(wr, cvrs, mvrs)
+    if same:
+        hit(f"CVR objects used as their own manual records ({same})")
     objs = cvrs + mvrs                      # handle of a record = its index in objs
     hcvr = {id(c): i for i, c in enumerate(cvrs)}
     hmvr = {id(m): n + i for i, m in enumerate(mvrs)}
@@ -996,7 +1025,8 @@ def gen_big_world(rng):
     for k, kind in enumerate(kinds):
         cands = CAND[:rng.randint(3, 4) if kind == "irv" else rng.randint(2, 4)]
         con = {"id": f"c{k}", "kind": kind, "cands": cands, "atype": w_type, "style": s_style,
-               "share": rng.choice([F(11, 20), F(2, 3), F(2, 5), F(11, 20), F(3, 5), F(1, 3)]), "direct": rng.random() < 0.5}
+               "share": rng.choice([F(11, 20), F(2, 3), F(2, 5), F(11, 20), F(3, 5), F(1, 3)]), "direct": rng.random() < 0.5,
+               "ctor": rng.random() < 0.3}
         if kind == "irv":
             con["json"] = [{"winner": "A", "loser": "B", "assertion_type": "WINNER_ONLY"},
                            {"winner": "A", "loser": "C", "assertion_type": "IRV_ELIMINATION", "already_eliminated": ["B"]}]
@@ -1070,6 +1100,7 @@ def run_big_world(spec):
     sample = [i for i in order if cvrs[i].sample_num <= top + 2 ** 204][:90]
     mvr_specs = [gen_mvr(wr, spec, cons, c) if wr.random() < 0.35 else {"votes": c.votes, "phantom": False} for c in cvrs]
     mvrs = [M.CVR(id=c.id, votes=m["votes"], phantom=m["phantom"]) for c, m in zip(cvrs, mvr_specs)]
+    mvrs, _same = cvrs_as_mvrs(wr, cvrs, mvrs)
     s_cvrs, s_mvrs = [cvrs[i] for i in sample], [mvrs[i] for i in sample]
     all_asns = [(con, a, asn) for con in cons for a, asn in contests[con["id"]].assertions.items()]
     bulk = wr.random() < 0.5
@@ -1160,6 +1191,7 @@ def prepare_world(spec):
     for c in cvrs:
         m = gen_mvr(wr, spec, cons, c)
         mvrs.append(M.CVR(id=c.id, votes=copy.deepcopy(m["votes"]), phantom=m["phantom"]))
+    mvrs, _same = cvrs_as_mvrs(wr, cvrs, mvrs)
     all_asns = [(con, a, asn) for con in cons for a, asn in contests[con["id"]].assertions.items()]
     return {"M": M, "spec": spec, "rng": wr, "cvrs": cvrs, "mvrs": mvrs, "contests": contests, "audit": audit,
             "sample": sample, "asns": all_asns, "bulk": wr.random() < 0.5}
